@@ -194,3 +194,9 @@ Theorem C12_adjacent_literals_need_normal_form :
   ~ Forall wf_item (normalize p).
 Proof. exact adjacent_literals_need_normal_form. Qed.
 Print Assumptions C12_adjacent_literals_need_normal_form.
+
+(* the C++ adjacency test  find_first_of('(', pos) - pos == 1  at a '%' is the test find_attr makes *)
+Theorem C12_adjacency_test : forall t,
+  find_first c_lp (c_pct :: t) = Some 1 <-> exists r, t = c_lp :: r.
+Proof. exact adjacency_test. Qed.
+Print Assumptions C12_adjacency_test.
